@@ -40,9 +40,9 @@ def _case_step(cfg, state, velocity, forcing, steps, seed, backend):
     dt, nu, rho = c["params"]
     fails = []
     sim = simcfg.make_sim(c)
-    # patterns may reach into the zone: margin 1 keeps only the outermost ring clear for 'generic',
     # the impulse patterns sit inside / at the edge of the zone on purpose
-    margin = 1 if state in ("generic", "checker") else max(1, c["width"])
+    # 'generic' / 'checker' fill the WHOLE grid including the outermost ring (every admissible state)
+    margin = 0 if state in ("generic", "checker") else max(1, c["width"])
     simcfg.load_state(sim, c, state, velocity, forcing, margin=margin, seed=seed)
     dx = float(sim.dx)
     tag = f"{kind}"
@@ -69,7 +69,7 @@ def _case_step(cfg, state, velocity, forcing, steps, seed, backend):
         w0 = prim.astype(np.float64).copy()
         u0 = sim.velocity_field.astype(np.float64).copy()
         f0 = sim.eul_grid_forcing_field.astype(np.float64).copy() if (simcfg.is_ns(kind) and c["forcing"]) else None
-        fs = simcfg.free_stream(c, seed + step) if c["stream"] else None
+        fs = simcfg.free_stream(c, seed + step) if c["stream"] else None  # c["stream_kind"] selects the alphabet member
         kw = {"free_stream_velocity": fs} if fs is not None else {}
         sim.time_step(dt=dt, **kw)
         t_expected += dt
@@ -155,7 +155,7 @@ def lattice_cases(tier, seed):
     out = []
     dev = {"quick": 2, "dev1": 1}.get(tier, 3)
     pat = {"state": simcfg.STATE_PATTERNS, "velocity": simcfg.VELOCITY_PATTERNS}
-    ns_common = {"dtype": ["float64", "float32"], "forcing": [True, False], "stream": [True, False], "width": [2, 0, 1, 3, 4], "params": PARAMS,
+    ns_common = {"dtype": ["float64", "float32"], "forcing": [True, False], "stream": [True, False], "stream_kind": simcfg.STREAM_KINDS, "width": [2, 0, 1, 3, 4], "params": PARAMS,
                  "steps": [1, 2, "2:single", "2:zero"], **pat, "forcing_pat": simcfg.FORCING_PATTERNS}
     kinds = {
         "ns2d": {**ns_common, "shape": SHAPES[2]},
@@ -167,7 +167,7 @@ def lattice_cases(tier, seed):
     for kind, axes in kinds.items():
         for pt in explore.lattice(axes, dev):
             cfg = {"kind": kind, "dtype": pt["dtype"], "params": pt["params"], "shape": pt["shape"]}
-            for k in ("forcing", "stream", "width", "filter", "poisson"):
+            for k in ("forcing", "stream", "stream_kind", "width", "filter", "poisson"):
                 if k in pt:
                     cfg[k] = pt[k]
             out.append(dict(cfg=cfg, state=pt["state"], velocity=pt["velocity"], forcing=pt.get("forcing_pat", "none"), steps=pt["steps"], seed=seed))
